@@ -31,6 +31,11 @@ LEVEL_NOTE = "Trusts: Lean kernel for the loop logic; timing assertions carry 1 
 TECHNIQUE = "Lean 4 theorems over the loop model (script cut at the stop poll) + differential runs at every stop position + timed harness observations"
 
 
+
+# round 5 additions
+THEOREMS = THEOREMS + ['Portus.C18.stop_handle_balanced', 'Portus.C18.close_called_once', 'Portus.C18.close_exactly_once_under_discipline', 'Portus.C18.dead_handle_cannot_send']
+AUDIT_IMPORTS = list(globals().get('AUDIT_IMPORTS', [])) + ['PortusModel.Props.C18Own']
+
 def project(c, r):
     return r if c.cmd in ("STOP", "STOPX") else R.project(r, KEEP)
 
